@@ -621,7 +621,10 @@ Q_MEMBER = ["function M.f() end\n", "function M.g() end\n", "M.x = 1\n", "M.f = 
             "function M.f(p) return p end\nfunction M.g() end\n", "print(1)\n", "function M:f() end\n"]
 Q_USER = "M.f()\nlocal v = M.x\nlocal w = M.g\nlocal z = M.f\n"
 Q_QUERIES = ["S:open:0", "S:define:0:0:2", "S:hover:0:0:2", "S:define:0:1:12", "S:define:0:2:12", "S:hover:0:2:12",
-             "S:complete:0:3:12", "S:diags"]
+             "S:complete:0:3:12", "S:pdocsyms:%s" % hx("a.lua"), "S:pdocsyms:%s" % hx("b.lua"), "S:diags"]
+# texts typed into a buffer that is then CLOSED WITHOUT SAVING (op edit-close): the discarded buffer must leave no trace in
+# the answers (seeded C08-7: didClose kept the live analysis of a syntactically broken buffer); broken and clean variants
+Q_TYPED = ["function M.typed() end\nlocal = 1\n", "Typed = 1\nfunction M.t2(\n", "function M.typed() end\n", "M = { typed = 1 }\nx x\n"]
 
 
 def query_case(init, steps, final):
@@ -681,6 +684,10 @@ def stale_members(script):
             steps += ["S:popen:%s:%s" % (hx(f), hx(disk[f])), "S:pchange:%s:%s" % (hx(f), hx(t)),
                       "S:fswrite:%s:%s" % (hx(f), hx(t)), "S:psave:%s" % hx(f), "S:pclose:%s" % hx(f)]
             changed(f, t)
+        elif op == "edit-close" and f in disk:
+            # the editor opens the file, types (a valid edit first, then t), and closes it without saving: the disk is unchanged
+            steps += ["S:popen:%s:%s" % (hx(f), hx(disk[f])), "S:pchange:%s:%s" % (hx(f), hx(disk[f] + "Typed0 = 0\n")),
+                      "S:pchange:%s:%s" % (hx(f), hx(t)), "S:pclose:%s" % hx(f)]
         elif op == "touch" and f in disk:
             steps += ["S:watch:2:%s" % hx(f)]
             changed(f, disk[f])
@@ -709,6 +716,8 @@ def gen_query(rng, tier):
     out.append(one([("init", "a.lua", Q_TABLE[1]), ("init", "b.lua", Q_MEMBER[3]), ("init", "d.lua", Q_MEMBER[0]),
                     ("watch-delete", "b.lua", "")]))
     out.append(one([("init", "a.lua", Q_TABLE[0]), ("init", "d.lua", Q_MEMBER[0]), ("watch-create", "b.lua", Q_MEMBER[4])]))
+    out.append(one([("init", "a.lua", Q_TABLE[0]), ("init", "b.lua", Q_MEMBER[0]), ("edit-close", "b.lua", Q_TYPED[0])]))
+    out.append(one([("init", "a.lua", Q_TABLE[0]), ("init", "b.lua", Q_MEMBER[0]), ("edit-close", "a.lua", Q_TYPED[3])]))
     for k in range(n):
         script = [("init", "a.lua", rng.choice(Q_TABLE))] if rng.random() < 0.9 else []
         for f in ["b.lua", "d.lua"]:
@@ -718,8 +727,9 @@ def gen_query(rng, tier):
         for _ in range(rng.choice([1, 1, 2, 3, 4])):
             f = "a.lua" if only_table else rng.choice(["b.lua", "b.lua", "d.lua", "a.lua"])
             texts = Q_TABLE if f == "a.lua" else Q_MEMBER
-            op = rng.choice(["watch-change", "watch-change", "edit-save", "watch-delete", "watch-create", "watch-create", "touch"])
-            script.append((op, f, rng.choice(texts)))
+            op = rng.choice(["watch-change", "watch-change", "edit-save", "watch-delete", "watch-create", "watch-create", "touch",
+                             "edit-close"])
+            script.append((op, f, rng.choice(Q_TYPED) if op == "edit-close" else rng.choice(texts)))
         if rng.random() < 0.3:
             # the file defining the table is analysed again, last (heals the simple cases; still inside the class)
             script.append((rng.choice(["watch-change", "edit-save", "touch", "watch-create"]), "a.lua", rng.choice(Q_TABLE)))
